@@ -156,6 +156,7 @@ func c11(r *ev.Result, tier string) {
 	/* The -log file of the real binary, end to end. */
 	base := ev.Scratch("c11-")
 	c11RealBinary(r, base)
+	quietSpell(r, "C11")
 	/* A slow log sink while output flows and the stream is cancelled. */
 	if isQuick(tier) {
 		c11SlowLogStress(r, 10)
